@@ -1259,11 +1259,19 @@ reg(Prop("C19", "The tuner optimises the same evaluation the engine plays with",
           StreamCfg("c19z", 400, 20000,
                     rule="same generator; Go Eval[Score] on the no-hash board against the wrapping int16 model eval_Z, the "
                          "non-wrapping model eval_U and the no_wrap predicate (proved for all valid positions: C19_no_wrap)"),
+          StreamCfg("c19fresh", 12, 200, judge="judge_c19fresh", model=False,
+                    rule="every case runs in a FRESH PROCESS (the harness re-executes itself): 8-16 goroutines released "
+                         "together from a spin barrier (arrival windows 0..256 us) make the first calls of tuning.EngineCoeffs() "
+                         "of that process, each compares its copy with float64(eval.Coefficients) (memory images) and evaluates "
+                         "4 positions with EngineRep.Eval against Eval[Score]; then a sequential call; non-trivial = every case"),
           StreamCfg("c19vec", 63, 140000, judge="judge_c19vec",
                     rule="target lists: default targets (tuner order), all fields, none, unknown name, every single field, "
                          "random subsets in random order with duplicates and unknown names (thorough: every one of the 2^17 "
                          "subsets and every index of the default vector); mode 0 write/read-back/TunedParams on the zero struct, "
                          "mode 1 the finite-difference perturbation of client.go on EngineCoeffs(), mode 2 EngineCoeffs() itself; "
+                         "mode 4 two or three private coefficient sets with equal or different selections whose TunedParams iterators "
+                         "are obtained up front and advanced one after the other / in lockstep (iter.Pull2) / nested / interleaved with "
+                         "strides, every yielded pointer located by address and marked, mode 5 concurrent workers with private sets; "
                          "non-trivial = at least one target or mode 2; distinct by input")],
          allowed_axioms=C19_AXIOMS,
          trusted=["hooks eval/export_verif.go (VerifSigm, VerifSideOfBoard, VerifInsufficientMat), board/export_verif.go (snapshot/restore)",
